@@ -1,7 +1,11 @@
 use std::collections::HashMap;
 use std::net::SocketAddrV4;
 use std::num::NonZeroUsize;
-use std::time::{Duration, Instant};
+use std::time::Duration;
+#[cfg(not(mainline_verif))]
+use std::time::Instant;
+#[cfg(mainline_verif)]
+use crate::verif::Instant;
 
 use lru::LruCache;
 use tracing::error;
